@@ -512,6 +512,111 @@ def r9_5(ctx):
     c11.r11_5(ctx)
 
 
+def _nonzero_edge(f, o, bb):
+    """is block bb reached only on the non-zero edge of a test of an integer against 0 (`x != 0`, `x == 0` negated, or a switch over x with a 0 arm)?
+    -> description or None"""
+    for sb, st in switches(f):
+        be = bool_edges(f, sb)
+        if be is not None:
+            tree = cond_tree(f, sb, o)
+            neg = False
+            while tree.kind == "un" and tree.a == "Not":
+                neg, tree = not neg, tree.kids[0]
+            if tree.kind == "bin" and tree.a in ("Ne", "Eq") and any(k.kind == "const" and k.a.as_int() == 0 for k in tree.kids):
+                ne = be[0] if ((tree.a == "Ne") != neg) else be[1]
+                if bb in f.reachable(ne) and bb not in f.reachable(0, removed_edges=[(sb, ne)]):
+                    return "%s(.., 0)" % tree.a
+            continue
+        t = f.blocks[sb]["term"]
+        pl = t["discr"].get("move") or t["discr"].get("copy")
+        if pl is not None and re.match(r"^[iu](8|16|32|64|size)$", f.lty(pl["l"]) or "") and not pl["p"]:
+            zero = [tg for v, tg in t.get("targets", []) if int(v) == 0]
+            other = t.get("otherwise")
+            if zero and other is not None and bb in f.reachable(other) and bb not in f.reachable(0, removed_edges=[(sb, other)]):
+                return "switch(.. 0 => skip)"
+    return None
+
+
+def r9_10(ctx):
+    """sibling agreement inside the test generator: (a) every path that writes an exit code line `[n]` does so only for n != 0 - the Ok and the
+    MalformedOutput paths go through generate_testcase_exit_code, the InvalidExitCode path writes the line itself; a `[0]` written there is removed
+    again by the next update (not idempotent); (b) the stream whose text becomes the expectations of a test that failed on its exit code is the
+    stream validation compares them with: output.stderr exactly on output_stream == Some(Stderr) (C05 R5.3's selection)"""
+    prog = ctx.prog
+    g = prog.impl_fn("Outcome", "OutcomeTestGenerator", "generate_testcase")
+    bodies = [g, prog.fn("Outcome::generate_testcase_exit_code")]
+    n = 0
+    for f in bodies:
+        o = Origins(f)
+        for bb, t in f.calls():
+            if mname(t) != "Arguments::new":
+                continue
+            try:
+                ps = pieces(o._def((bb, "term", "call", t), 0, ()))
+            except FmtError:
+                continue
+            text = "".join(x if isinstance(x, str) else "\x00" for x in ps)
+            if text not in ("[\x00]\n", "[\x00]"):
+                continue
+            n += 1
+            how = _nonzero_edge(f, o, bb)
+            ctx.check(how is not None, "exit-code-line-nonzero:%s#%d" % (f.npath.split("::")[-1], n), f.loc(bb),
+                      "this `[n]` line is written on the non-zero edge only (%s)" % how,
+                      "this `[n]` line is written for every exit code, also 0: the other paths leave a zero code out, so once the test passes the next update removes the "
+                      "`[0]` line again - updating an already updated document changes it")
+    if n < 2:
+        ctx.bad("exit-code-sites", g.where(), "only %d `[n]` writes found in the test generator (2 confirmed by reading: generate_testcase_exit_code and the InvalidExitCode arm)" % n)
+    # (b) the regenerated stream
+    o = Origins(g)
+    sites = [(bb, t) for bb, t in g.calls() if mname(t) == "OutputStream::to_output_string"]
+    if not sites:
+        raise AnchorError("generate_testcase: no OutputStream::to_output_string call (the InvalidExitCode arm)")
+    for bb, t in sites:
+        src = peel(o.operand(t["args"][0]))
+        nodes = [peel(k) for k in (src.kids if src.kind == "phi" else [src])]
+        flds = sorted({x.a for x in nodes if x.kind == "field"})
+        sel = None
+        for sb, st in switches(g):
+            be = bool_edges(g, sb)
+            if be is None:
+                continue
+            tree = cond_tree(g, sb, o)
+            neg = False
+            while tree.kind == "un" and tree.a == "Not":
+                neg, tree = not neg, tree.kids[0]
+            if tree.kind == "call" and method_name(tree.a) in ("PartialEq::eq", "PartialEq::ne") and any(x.kind == "field" and x.a == "output_stream" for x in tree.walk()):
+                from ..cfgq import promoted_tree
+                shown = tree.show()
+                for x in tree.walk():
+                    if x.kind == "const":
+                        pt = promoted_tree(prog, g, x.a)
+                        if pt is not None:
+                            shown += pt.show()
+                if "Stderr" in shown:
+                    if method_name(tree.a) == "PartialEq::ne":
+                        neg = not neg
+                    sel = (sb, be[1] if neg else be[0], be[0] if neg else be[1])
+        good = flds == ["stderr", "stdout"] and sel is not None
+        if good:
+            sb, e_err, e_out = sel
+            # the reference to output.stderr is taken on the Stderr edge, the one to output.stdout on the other
+            refs = {}
+            for bi, blk in enumerate(g.blocks):
+                if blk["cleanup"]:
+                    continue
+                for st in blk["stmts"]:
+                    if st["k"] == "assign" and st["rv"]["k"] == "ref":
+                        names = [p_.get("n") for p_ in st["rv"]["place"]["p"] if isinstance(p_, dict) and "n" in p_]
+                        if names[-2:] in (["output", "stderr"], ["output", "stdout"]):
+                            refs.setdefault(names[-1], []).append(bi)
+            def only(b_, e_):
+                return b_ in g.reachable(e_) and b_ not in g.reachable(0, removed_edges=[(sb, e_)])
+            good = any(only(b_, e_err) for b_ in refs.get("stderr", [])) and any(only(b_, e_out) for b_ in refs.get("stdout", []))
+        ctx.check(good, "regenerated-stream", g.loc(bb), "the regenerated expectations come from output.stderr exactly on output_stream == Some(Stderr), else from output.stdout - as validate selects",
+                  "the expectations of a test that failed on its exit code are regenerated from %s regardless of the configured stream: with `output_stream: stderr` the "
+                  "written test is validated against stderr and fails on the very output it was generated from" % (flds or src.show()[:60]))
+
+
 def run(ctx):
     ctx.run_rule("R9.1", "Markdown fences: same `\"`\".repeat(max_backtick_size(body)+c)` value opens and closes, c>=1, measured text == emitted text; max_backtick_size >= 2, max over all lines [E-FLOW]", r9_1, floor=12)
     ctx.run_rule("R9.2", "no str::trim* is applied to a generated test body anywhere in src/generators [E-FLOW sweep]", r9_2, floor=2)
@@ -523,3 +628,4 @@ def run(ctx):
     from . import c06 as _c06
     ctx.run_rule("R9.9", "writer/reader fence agreement: the parser closes a block on a column-0 prefix test against the opening fence - what the writer's max_backtick_size measures (shared with C06 R6.9) [E-TABLE]", _c06.r6_9, floor=3)
     ctx.run_rule("R9.4", "writer/reader tables: `$ `/`> ` prefixes, exit-code line iff code != 0, `[n]` form accepted by the reader's pattern [E-TABLE]", r9_4, floor=6)
+    ctx.run_rule("R9.10", "generator siblings agree: every `[n]` line is written for n != 0 only (also in the InvalidExitCode arm); that arm regenerates the expectations from the stream validation compares them with (F30, F32) [E-PATH, E-FLOW]", r9_10, floor=3)
